@@ -119,6 +119,51 @@ func c18(tier string, args []string) int {
 		}
 	})
 
+	// the rotated-bitboard line lookups (exported, superseded by GetAttacksBb but still precomputed tables): every square x
+	// every occupancy of the line x backgrounds elsewhere (the neighbouring lines are what a wrong mask lets in)
+	lineFns := []struct {
+		name string
+		vecs [][2]int
+		fn   func(Square, Bitboard) Bitboard
+	}{
+		{"GetMovesOnRank", [][2]int{{1, 0}, {-1, 0}}, GetMovesOnRank},
+		{"GetMovesOnFile", [][2]int{{0, 1}, {0, -1}}, GetMovesOnFile},
+		{"GetMovesDiagUp", [][2]int{{1, 1}, {-1, -1}}, GetMovesDiagUp},
+		{"GetMovesDiagDown", [][2]int{{1, -1}, {-1, 1}}, GetMovesDiagDown},
+	}
+	vl.Parallel(64, func(sq, n int) {
+		f, r := sq%8, sq/8
+		for _, lf := range lineFns {
+			line := lineSquares(f, r, lf.vecs)
+			var lineMask Bitboard
+			for _, s := range line {
+				lineMask |= Bitboard(1) << uint(s)
+			}
+			var cases int64
+			for sub := 0; sub < 1<<uint(len(line)); sub++ {
+				var occLine Bitboard
+				for i, s := range line {
+					if sub&(1<<uint(i)) != 0 {
+						occLine |= Bitboard(1) << uint(s)
+					}
+				}
+				want := slide(f, r, lf.vecs, occLine)
+				for _, bg := range append(append([]Bitboard{}, backgrounds...), 0x00FF00FF00FF00FF, 0xF0F0F0F00F0F0F0F) {
+					occ := occLine | (bg &^ lineMask) | Bitboard(1)<<uint(sq)
+					cases++
+					var got Bitboard
+					if msg, pan := vl.Guard(func() { got = lf.fn(Square(sq), occ) }); pan {
+						bad("line-lookup-panic:"+lf.name, lf.name+" panicked: "+msg, map[string]interface{}{"square": Square(sq).String(), "occupied": fmt.Sprintf("%#x", uint64(occ))})
+					} else if got != want {
+						bad("line-lookup:"+lf.name, fmt.Sprintf("%s(%s,%#x)=%#x want %#x", lf.name, Square(sq).String(), uint64(occ), uint64(got), uint64(want)),
+							map[string]interface{}{"square": Square(sq).String(), "occupied": fmt.Sprintf("%#x", uint64(occ))})
+					}
+				}
+			}
+			run.AddStates(cases)
+		}
+	})
+
 	// step pieces, pawn attacks, pseudo attacks
 	for sq := 0; sq < 64; sq++ {
 		f, r := sq%8, sq/8
